@@ -291,6 +291,7 @@ def core_named(phi):
     return sorted((sorted(map(repr, k)), round(v, 12)) for k, v in d.items())
 
 
+THOROUGH_SCALE = 4  # thorough-tier example counts are n["thorough"] x this (one thorough run then takes roughly 5-10 minutes on 16 cores)
 SUBCHECKS = [
     Sub("bn_conversions", check_bn, strategy=lambda tier: bn_case(), n={"quick": 150, "thorough": 2500},
         shards={"quick": 6, "thorough": 16}, fuzz={"thorough": (2, 300)}, doc="BayesianNetwork.to_markov_model (moral graph, joint, Z=1) and to_junction_tree (clique-tree validity, joint, state names)"),
